@@ -115,6 +115,8 @@ class Scenario:
             self.error = "deadlock/hang: " + str(e)[:800]
         finally:
             pair.restore()
+            import gc
+            gc.collect()  # finalise this run's leftovers now, while no scheduler is active
         errs = [(t.name, repr(t.exc), getattr(t, "tb", "")[-600:]) for t in sc.threads
                 if t.exc is not None and not isinstance(t.exc, S.SchedAbort)]
         self.thread_errors = errs
